@@ -148,9 +148,15 @@ func init() {
 			tv := p.TypesInfo.Types[varInit(p, v.goName)]
 			b, _ := os.ReadFile(filepath.Join(repo, constant.StringVal(tv.Value)))
 			byContent, byLoader := 0, 0
+			keys := map[string]bool{} // the key column: Big5 code in the b2u file, code point in the u2b file
 			for _, line := range strings.Split(string(b), "\n") {
 				if fs := strings.Fields(line); len(fs) >= 2 && hexF.MatchString(fs[0]) && hexF.MatchString(fs[1]) {
 					byContent++
+					if v.lean == "b2u" {
+						keys[strings.ToUpper(fs[0])] = true
+					} else {
+						keys[strings.ToUpper(fs[1])] = true
+					}
 				}
 				if ps := strings.Split(line, " "); len(ps) == 2 && hexF.MatchString(strings.TrimSpace(ps[0])) && hexF.MatchString(strings.TrimSpace(ps[1])) {
 					byLoader++
@@ -158,6 +164,7 @@ func init() {
 			}
 			lf.nat(v.lean+"RowsByContent", byContent)
 			lf.nat(v.lean+"RowsByLoaderRule", byLoader)
+			lf.nat(v.lean+"DistinctKeys", len(keys))
 		}
 		lf.write(out)
 	})
